@@ -137,18 +137,23 @@ where
         }
     }
 
+    /// Returns `false` without touching the shard if `record` is the result of fetch `fetch` and that fetch
+    /// is no longer the inflight of the key.
     fn emplace(
         &mut self,
         record: Arc<Record<E>>,
         garbages: &mut Vec<(Event, Arc<Record<E>>)>,
         taken: &mut Taken<E, S, I>,
-    ) {
+        fetch: Option<usize>,
+    ) -> bool {
         // The taken inflight owns a key clone: it is handed to the caller to be dropped out of the lock.
-        *taken = self
-            .inflights
-            .lock()
-            .take(record.hash(), record.key(), None)
-            .unwrap_or_default();
+        let inflight = self.inflights.lock().take(record.hash(), record.key(), fetch);
+        if fetch.is_some() && inflight.is_none() {
+            // An insert took the inflight over after the fetch last looked at its close flag: the key has a
+            // newer entry, which the late fetch result must not replace.
+            return false;
+        }
+        *taken = inflight.unwrap_or_default();
         let notifiers = &taken.notifiers;
 
         if record.properties().phantom().unwrap_or_default() {
@@ -169,7 +174,7 @@ where
             record.inc_refs(notifiers.len() + 1);
             garbages.push((Event::Remove, record));
             self.metrics.memory_insert.increase(1);
-            return;
+            return true;
         }
 
         let weight = record.weight();
@@ -213,6 +218,7 @@ where
             std::cmp::Ordering::Less => self.metrics.memory_usage.decrease((old_usage - self.usage) as _),
             std::cmp::Ordering::Equal => {}
         }
+        true
     }
 
     #[cfg_attr(feature = "tracing", fastrace::trace(name = "foyer::memory::raw::shard::remove"))]
@@ -563,9 +569,14 @@ where
         &self,
         key: E::Key,
         value: E::Value,
-        mut properties: E::Properties,
+        properties: E::Properties,
         source: Source,
     ) -> RawCacheEntry<E, S, I> {
+        let record = self.record(key, value, properties);
+        self.insert_inner(record, source)
+    }
+
+    fn record(&self, key: E::Key, value: E::Value, mut properties: E::Properties) -> Arc<Record<E>> {
         let hash = self.inner.hash_builder.hash_one(&key);
         let weight = (self.inner.weighter)(&key, &value);
         if !(self.inner.filter)(&key, &value) {
@@ -576,14 +587,13 @@ where
         {
             properties = properties.with_phantom(true);
         }
-        let record = Arc::new(Record::new(Data {
+        Arc::new(Record::new(Data {
             key,
             value,
             properties,
             hash,
             weight,
-        }));
-        self.insert_inner(record, source)
+        }))
     }
 
     #[doc(hidden)]
@@ -594,12 +604,27 @@ where
 
     #[cfg_attr(feature = "tracing", fastrace::trace(name = "foyer::memory::raw::insert_inner"))]
     fn insert_inner(&self, record: Arc<Record<E>>, source: Source) -> RawCacheEntry<E, S, I> {
+        self.insert_checked(record, source, None)
+            .expect("only the result of a superseded fetch is not inserted")
+    }
+
+    /// Insert `record`; if it is the result of fetch `fetch`, only while that fetch still is the inflight of
+    /// the key (checked within the shard lock).
+    fn insert_checked(
+        &self,
+        record: Arc<Record<E>>,
+        source: Source,
+        fetch: Option<usize>,
+    ) -> Option<RawCacheEntry<E, S, I>> {
         let mut garbages = vec![];
         let mut taken = Taken::default();
 
-        self.inner.shards[self.shard(record.hash())]
+        let inserted = self.inner.shards[self.shard(record.hash())]
             .write()
-            .with(|mut shard| shard.emplace(record.clone(), &mut garbages, &mut taken));
+            .with(|mut shard| shard.emplace(record.clone(), &mut garbages, &mut taken, fetch));
+        if !inserted {
+            return None;
+        }
 
         // Notify waiters out of the lock critical section.
         let Taken { notifiers, .. } = taken;
@@ -625,12 +650,12 @@ where
             }
         }
 
-        RawCacheEntry {
+        Some(RawCacheEntry {
             record,
             pipe: self.pipe.clone(),
             inner: self.inner.clone(),
             source,
-        }
+        })
     }
 
     /// Evict all entries in the cache and offload them into the disk cache via the pipe if needed.
@@ -1309,7 +1334,7 @@ where
                     match optional_fetch.poll_unpin(cx) {
                         Poll::Pending => return Poll::Pending,
                         Poll::Ready(Ok(Some(target))) => {
-                            handle_try! {*this.state, handle_target(target, this.key, this.cache, Source::Disk) }
+                            handle_try! {*this.state, handle_target(target, this.key, this.cache, Source::Disk, *this.id) }
                         }
                         Poll::Ready(Ok(None)) => {
                             handle_try! { *this.state, try_set_required(required_fetch_builder, this.ctx, *this.id, *this.hash, this.key.as_ref().unwrap(), &this.inflights, Ok(None)) }
@@ -1326,7 +1351,7 @@ where
                     match required_fetch.poll_unpin(cx) {
                         Poll::Pending => return Poll::Pending,
                         Poll::Ready(Ok(target)) => {
-                            handle_try! { *this.state, handle_target(target, this.key, this.cache, Source::Outer) }
+                            handle_try! { *this.state, handle_target(target, this.key, this.cache, Source::Outer, *this.id) }
                         }
                         Poll::Ready(Err(e)) => {
                             handle_try! { *this.state, handle_error(e, *this.id, *this.hash, this.key.as_ref().unwrap(), this.inflights) }
@@ -1407,14 +1432,16 @@ where
         key: &mut Once<E::Key>,
         cache: &RawCache<E, S, I>,
         source: Source,
+        id: usize,
     ) -> Try<E, S, I, C> {
         match target {
             FetchTarget::Entry { value, properties } => {
                 let key = key.take().unwrap();
-                cache.insert_with_properties_inner(key, value, properties, source);
+                let record = cache.record(key, value, properties);
+                cache.insert_checked(record, source, Some(id));
             }
             FetchTarget::Piece(piece) => {
-                cache.insert_piece(piece);
+                cache.insert_checked(piece.into_record(), Source::Memory, Some(id));
             }
         }
         Try::Ready
